@@ -163,6 +163,7 @@ func runC07Random(c *core.Ctx, idx *int) {
 			opt     openapi3filter.Options
 			noFunc  bool
 			readBod bool
+			opaque  int
 		}
 		var rqs []rq
 		for k := 0; k < 8; k++ {
@@ -180,6 +181,7 @@ func runC07Random(c *core.Ctx, idx *int) {
 			q.opt = openapi3filter.Options{MultiError: r.Intn(2) == 0, ExcludeRequestBody: r.Intn(4) == 0, ExcludeRequestQueryParams: r.Intn(4) == 0}
 			q.noFunc = r.Intn(8) == 0
 			q.readBod = r.Intn(4) == 0
+			q.opaque = []int{0, 0, 1, 2}[r.Intn(4)]
 			rqs = append(rqs, q)
 		}
 		if !mine {
@@ -276,7 +278,8 @@ func runC07Random(c *core.Ctx, idx *int) {
 				target += "?" + strings.Join(pairs, "&")
 			}
 			req := newReq("POST", target, hdr, bodyBytes)
-			optName := fmt.Sprintf("multi=%v,xbody=%v,xquery=%v,nofunc=%v,readbody=%v", q.opt.MultiError, q.opt.ExcludeRequestBody, q.opt.ExcludeRequestQueryParams, q.noFunc, q.readBod)
+			opaqueBody(req, bodyBytes, q.opaque)
+			optName := fmt.Sprintf("multi=%v,xbody=%v,xquery=%v,nofunc=%v,readbody=%v,stream=%d", q.opt.MultiError, q.opt.ExcludeRequestBody, q.opt.ExcludeRequestQueryParams, q.noFunc, q.readBod, q.opaque)
 			desc := fmt.Sprintf("%s\nrequest POST %s headers=%v body=%s auth=%v options=%s", desc0, target, hdr, bodyBytes, q.authOK, optName)
 			// ---- model ----
 			want := map[string]bool{}
